@@ -118,6 +118,10 @@ def _skips(o, fn, loop, induction):
         if isinstance(s, (ast.Break, ast.Continue, ast.Return)):
             o.violated(fn, s, "unconditional jump in the consumption loop: remaining stubs are never built into motifs")
         elif isinstance(s, ast.If) and any(isinstance(x, (ast.Break, ast.Continue, ast.Return)) for b in (s.body, s.orelse) for y in b for x in ast.walk(y)):
+            jumping = [b for b in (s.body, s.orelse) if any(isinstance(x, (ast.Break, ast.Continue, ast.Return)) for y in b for x in ast.walk(y))]
+            if all(any(isinstance(x, ast.Call) and isinstance(x.func, ast.Attribute) and x.func.attr in ("extend", "append") and "edge_list" in txt(x.func.value) for y in b for x in ast.walk(y))
+                   and not any(isinstance(x, (ast.Break, ast.Return)) for y in b for x in ast.walk(y)) for b in jumping):
+                continue   # `if ...: <record the motif>; continue` is an if/else arm, not a skipped chunk
             if astx.names_in(s.test) <= set(induction) | {"len"}:
                 o.violated(fn, s, f"`if {txt(s.test)}` skips part of the stubs for some valid joint degree sequence")
             else:
